@@ -20,7 +20,7 @@ Definition OutA (c : cfg) (o : outev) : Prop :=
   | GReq caps adv acked =>
       (forall x, In x caps -> smem x (c_wanted c) = true /\ In x adv) /\
       (smem s_echo caps = true -> smem s_label acked = true \/ exists rest, caps = s_echo :: s_label :: rest)
-  | GEnd n _ => n = 1%nat
+  | GEnd n _ _ => n = 1%nat
   | StoreSts _ _ => c_secure c = true
   | _ => True
   end.
@@ -84,9 +84,12 @@ Proof.
   intro H. unfold reconnect. apply ok_andthen; [apply ok_emit; [exact H|exact Logic.I]|]. intros s1 _. apply ok_reset.
 Qed.
 
-Lemma ok_endCap s : InvA s -> ok (endCap s).
+Lemma ok_endCap s : InvA s -> ok (endCap c s).
 Proof.
-  intros [A1 A2 A3 A4]. unfold endCap, transition.
+  intro H. unfold endCap.
+  destruct (required_unauth c s); [apply ok_reconnect; exact H|].
+  destruct (outstanding s); [|apply ok_ret; exact H].
+  destruct H as [A1 A2 A3 A4]. unfold transition.
   destruct (fire gen.T08.EV_on_cap_end (fsm s)) as [t|] eqn:Ef; [|apply ok_raise; split; assumption].
   destruct (cap_end_fire _ _ Ef) as [Hnl [Htl Hns]].
   assert (Hg0 : g_ends s = 0%nat).
@@ -129,7 +132,7 @@ Qed.
 
 Lemma ok_maybeStartSasl s : InvA s -> ok (maybeStartSasl c s).
 Proof.
-  intro H. unfold maybeStartSasl. okstep; [|apply ok_ret; exact H].
+  intro H. unfold maybeStartSasl. okstep; [|okstep; [apply ok_endCap|apply ok_ret]; exact H].
   match goal with E : _ && _ = true |- _ => apply andb_true_iff in E as [_ Hsm] end.
   okstep; [apply ok_transition_sasl; [apply (a_ack _ H); exact Hsm|exact H]|].
   okstep; [|apply ok_raise; assumption].
@@ -189,7 +192,7 @@ Lemma ok_requestCaps s caps0 :
   InvA s -> (forall x, In x caps0 -> smem x (c_wanted c) = true /\ In x (map fst (ls s))) ->
   ok (requestCaps s caps0).
 Proof.
-  intros H Hc. unfold requestCaps.
+  intros H Hc. unfold requestCaps, request_list. cbv zeta.
   set (sorted := sort_strs caps0).
   set (caps := if smem s_echo sorted && negb (smem s_label (ack s))
                then (if smem s_label (sremove s_echo sorted)
@@ -225,7 +228,8 @@ Proof.
     okstep; [apply ok_ret; assumption|].
     okstep; [apply ok_expect; assumption|].
     destruct (new_caps c s1) as [|x nc] eqn:En; [apply ok_endCap; assumption|].
-    apply ok_requestCaps; [assumption|]. intros y Hy. apply new_caps_sound. rewrite En. exact Hy.
+    okstep; [apply ok_requestCaps; [assumption|]; intros y Hy; apply new_caps_sound; rewrite En; exact Hy|].
+    okstep; [apply ok_ret|apply ok_endCap]; assumption.
   - okstep; [apply ok_ret; exact H|apply ok_addCapabilities; exact H].
 Qed.
 
@@ -297,7 +301,7 @@ Proof.
                 | assumption ]).
 Qed.
 
-Lemma ok_do903 s : InvA s -> ok (do903 s).
+Lemma ok_do903 s : InvA s -> ok (do903 c s).
 Proof.
   intro H. unfold do903. destruct tables_late_closed as [_ [_ [L3 _]]]. destruct tables_avoid_sasl as [_ [S2 _]].
   okstep.
@@ -311,6 +315,7 @@ Proof. intro H. unfold do908. destruct args as [|a [|b r]]; apply ok_raise; exac
 Lemma ok_do376 s : InvA s -> ok (do376 c s).
 Proof.
   intro H. unfold do376. destruct tables_late_closed as [_ [_ [_ [_ [_ [L6 _]]]]]]. destruct tables_avoid_sasl as [_ [_ [_ [_ [S5 _]]]]].
+  okstep; [apply ok_reconnect; exact H|].
   okstep; [apply ok_transition; assumption|].
   okstep; [apply ok_send|apply ok_ret]; apply InvA_set_after; assumption.
 Qed.
